@@ -4,12 +4,12 @@
    written against. *)
 From PDV Require Import lib.Skel gen.Gen_C08.
 
-Lemma plan_order_ok : plan_order = ["planReplace"; "planPromotePeer"; "planDemotePeer"; "planRemovePeer"; "planAddPeer"].
+Lemma plan_order_ok : plan_order =
+  ["planReplace"; "planPromotePeer"; "planDemotePeer"; "planRemovePeer"; "planAddPeer"].
 Proof. reflexivity. Qed.
 
 Lemma plan_prefs_ok : plan_prefs =
-  ["planPreferReplaceByNearest"; "planPreferUpStoreAsLeader"; "planPreferOldPeerAsLeader";
-   "planPreferAddOrPromoteTargetLeader"; "planPreferTargetLeader"; "planPreferLessLeaderTransfer"].
+  ["planPreferReplaceByNearest"; "planPreferUpStoreAsLeader"; "planPreferOldPeerAsLeader"; "planPreferAddOrPromoteTargetLeader"; "planPreferTargetLeader"; "planPreferLessLeaderTransfer"].
 Proof. reflexivity. Qed.
 
 Lemma leader_prefs_ok : leader_prefs =
@@ -17,125 +17,79 @@ Lemma leader_prefs_ok : leader_prefs =
 Proof. reflexivity. Qed.
 
 (* learners and demoting voters are never leader candidates *)
-Lemma no_leader_roles_ok : no_leader_roles = ["PeerRole_Learner"; "PeerRole_DemotingVoter"].
+Lemma no_leader_roles_ok : no_leader_roles =
+  ["PeerRole_Learner"; "PeerRole_DemotingVoter"].
 Proof. reflexivity. Qed.
 
 Lemma skel_allowLeader_ok : skel_allowLeader =
-  [SwitchE [[Ret]]; IfE "peer.GetStoreId() == b.currentLeaderStoreID" [Ret] []; Call "GetStore"; IfE "store == nil" [Ret] [];
-   IfE "ignoreClusterLimit" [Ret] []; Call "Target"; IfE "!stateFilter.Target(b.cluster.GetOpts(), store)" [Ret] [];
-   IfE "len(b.rules) == 0" [Ret] [];
-   ForE [Call "MatchLabelConstraints";
-         IfE "(r.Role == placement.Leader || r.Role == placement.Voter) && placement.MatchLabelConstraints(store, r.LabelConstraints)" [Ret] []];
-   Ret].
+  [SwitchE [[Ret]]; IfE "peer.GetStoreId() == b.currentLeaderStoreID" [Ret] []; Call "GetStore"; IfE "(b.cluster.GetStore(peer.GetStoreId())) == nil" [Ret] []; IfE "ignoreClusterLimit" [Ret] []; Call "Target"; IfE "!(&filter.StoreStateFilter{ActionScope: ""operator-builder"", TransferLeader: true}).Target(b.cluster.GetOpts(), (b.cluster.GetStore(peer.GetStoreId())))" [Ret] []; IfE "len(b.rules) == 0" [Ret] []; ForE [Call "MatchLabelConstraints"; IfE "(each#v(b.rules).Role == placement.Leader || each#v(b.rules).Role == placement.Voter) && placement.MatchLabelConstraints((b.cluster.GetStore(peer.GetStoreId())), each#v(b.rules).LabelConstraints)" [Ret] []]; Ret].
 Proof. reflexivity. Qed.
 
 (* joint path: learners first, target leader chosen, then one of three leader placements around a single
    enter/leave pair, removals last *)
 Lemma skel_joint_ok : skel_buildStepsWithJointConsensus =
-  [ForE [IfE "!core.IsLearner(peer)" [Call "execAddPeer"] [Call "execAddPeer"]];
-   Call "setTargetLeaderIfNotExist"; IfE "b.targetLeaderStoreID == 0" [Ret] [];
-   IfE "ok && !core.IsLearner(targetLeaderBefore)"
-     [IfE "b.originLeaderStoreID != b.targetLeaderStoreID" [Call "execTransferLeader"] []; Call "execChangePeerV2"]
-     [IfE "b.originLeaderStoreID == 0 || (ok && !core.IsLearner(originLeaderAfter))"
-        [Call "execChangePeerV2"; IfE "b.originLeaderStoreID != b.targetLeaderStoreID" [Call "execTransferLeader"] []]
-        [Call "execChangePeerV2"]];
-   ForE [Call "execRemovePeer"]; Ret].
+  [ForE [IfE "!core.IsLearner((b.toAdd[each#v(b.toAdd.IDs())]))" [Call "execAddPeer"] [Call "execAddPeer"]]; Call "setTargetLeaderIfNotExist"; IfE "b.targetLeaderStoreID == 0" [Ret] []; IfE "(b.originPeers[b.targetLeaderStoreID])#1 && !core.IsLearner((b.originPeers[b.targetLeaderStoreID])#0)" [IfE "b.originLeaderStoreID != b.targetLeaderStoreID" [Call "execTransferLeader"] []; Call "execChangePeerV2"] [IfE "b.originLeaderStoreID == 0 || ((b.targetPeers[b.originLeaderStoreID])#1 && !core.IsLearner((b.targetPeers[b.originLeaderStoreID])#0))" [Call "execChangePeerV2"; IfE "b.originLeaderStoreID != b.targetLeaderStoreID" [Call "execTransferLeader"] []] [Call "execChangePeerV2"]]; ForE [Call "execRemovePeer"]; Ret].
 Proof. reflexivity. Qed.
 
 (* leadership moves inside the joint state only in the third branch *)
-Lemma joint_v2_args_ok : joint_v2_args = ["true, false"; "true, false"; "true, true"].
+Lemma joint_v2_args_ok : joint_v2_args =
+  ["true, false"; "true, false"; "true, true"].
 Proof. reflexivity. Qed.
 
 Lemma skel_execChangePeerV2_ok : skel_execChangePeerV2 =
-  [Assign "b.toPromote" "= newPeersMap()"; Assign "b.toDemote" "= newPeersMap()";
-   IfE "needEnter" [Assign "b.steps" "= append(b.steps, step)"] [];
-   IfE "needTransferLeader && b.originLeaderStoreID != b.targetLeaderStoreID" [Call "execTransferLeader"] [];
-   Assign "b.steps" "= append(b.steps, ChangePeerV2Leave(step))"].
+  [Assign "b.toPromote" "= newPeersMap()"; Assign "b.toDemote" "= newPeersMap()"; IfE "needEnter" [Assign "b.steps" "= append(b.steps, (ChangePeerV2Enter{ PromoteLearners: make([]PromoteLearner, 0, len(b.toPromote)), DemoteVoters: make([]DemoteVoter, 0, len(b.toDemote)), }))"] []; IfE "needTransferLeader && b.originLeaderStoreID != b.targetLeaderStoreID" [Call "execTransferLeader"] []; Assign "b.steps" "= append(b.steps, ChangePeerV2Leave((ChangePeerV2Enter{ PromoteLearners: make([]PromoteLearner, 0, len(b.toPromote)), DemoteVoters: make([]DemoteVoter, 0, len(b.toDemote)), })))"].
 Proof. reflexivity. Qed.
 
 (* non-joint path: per plan  transfer, add, promote, transfer, demote, remove — in this order *)
 Lemma skel_nonjoint_ok : skel_buildStepsWithoutJointConsensus =
-  [Call "initStepPlanPreferFuncs";
-   ForE [Call "peerPlan"; Call "IsEmpty"; IfE "plan.IsEmpty()" [Ret] [];
-         IfE "plan.leaderBeforeAdd != 0 && plan.leaderBeforeAdd != b.currentLeaderStoreID" [Call "execTransferLeader"] [];
-         IfE "plan.add != nil" [Call "execAddPeer"] [];
-         IfE "plan.promote != nil" [Call "execPromoteLearner"] [];
-         IfE "plan.leaderBeforeRemove != 0 && plan.leaderBeforeRemove != b.currentLeaderStoreID" [Call "execTransferLeader"] [];
-         IfE "plan.demote != nil" [Call "execDemoteFollower"] [];
-         IfE "plan.remove != nil" [Call "execRemovePeer"] []];
-   Call "setTargetLeaderIfNotExist";
-   IfE "b.targetLeaderStoreID != 0 && b.currentLeaderStoreID != b.targetLeaderStoreID && b.currentPeers[b.targetLeaderStoreID] != nil"
-     [Call "execTransferLeader"] [];
-   IfE "len(b.steps) == 0" [Ret] []; Ret].
+  [Call "initStepPlanPreferFuncs"; ForE [Call "peerPlan"; Call "IsEmpty"; IfE "(b.peerPlan()).IsEmpty()" [Ret] []; IfE "(b.peerPlan()).leaderBeforeAdd != 0 && (b.peerPlan()).leaderBeforeAdd != b.currentLeaderStoreID" [Call "execTransferLeader"] []; IfE "(b.peerPlan()).add != nil" [Call "execAddPeer"] []; IfE "(b.peerPlan()).promote != nil" [Call "execPromoteLearner"] []; IfE "(b.peerPlan()).leaderBeforeRemove != 0 && (b.peerPlan()).leaderBeforeRemove != b.currentLeaderStoreID" [Call "execTransferLeader"] []; IfE "(b.peerPlan()).demote != nil" [Call "execDemoteFollower"] []; IfE "(b.peerPlan()).remove != nil" [Call "execRemovePeer"] []]; Call "setTargetLeaderIfNotExist"; IfE "b.targetLeaderStoreID != 0 && b.currentLeaderStoreID != b.targetLeaderStoreID && b.currentPeers[b.targetLeaderStoreID] != nil" [Call "execTransferLeader"] []; IfE "len(b.steps) == 0" [Ret] []; Ret].
 Proof. reflexivity. Qed.
 
 (* planReplace: five alternatives (promote+demote, add voter+demote, add+remove of the same kind on a free store,
    add learner+promote+remove voter on a free store, add voter+demote+remove learner) *)
 Lemma replace_guards_ok : replace_guards =
-  ["!core.IsLearner(add)"; "core.IsLearner(remove) == core.IsLearner(add) && b.currentPeers[i] == nil"; "core.IsLearner(add)";
-   "!core.IsLearner(remove) && b.currentPeers[j] == nil"; "core.IsLearner(remove)"; "!core.IsLearner(add) && j != k"].
+  ["!core.IsLearner((b.toAdd[each#v(b.toAdd.IDs())]))"; "(core.IsLearner((b.toRemove[each#v(b.toRemove.IDs())])) == core.IsLearner((b.toAdd[each#v(b.toAdd.IDs())])) || (len(b.toAdd) == 1 && len(b.toRemove) == 1 && len(b.toPromote) == 0 && len(b.toDemote) == 0)) && b.currentPeers[each#v(b.toAdd.IDs())] == nil"; "core.IsLearner((b.toAdd[each#v(b.toAdd.IDs())]))"; "!core.IsLearner((b.toRemove[each#v(b.toRemove.IDs())])) && b.currentPeers[each#v(b.toAdd.IDs())] == nil"; "core.IsLearner((b.toRemove[each#v(b.toRemove.IDs())]))"; "!core.IsLearner((b.toAdd[each#v(b.toAdd.IDs())])) && each#v(b.toRemove.IDs()) != each#v(b.toAdd.IDs())"].
+Proof. reflexivity. Qed.
+
+Lemma replace_defs_ok : replace_defs =
+  ["(len(b.toAdd) == 1 && len(b.toRemove) == 1 && len(b.toPromote) == 0 && len(b.toDemote) == 0) := len(b.toAdd) == 1 && len(b.toRemove) == 1 && len(b.toPromote) == 0 && len(b.toDemote) == 0"].
 Proof. reflexivity. Qed.
 
 Lemma replace_candidates_ok : replace_candidates =
-  ["best, stepPlan{promote: promote, demote: demote}"; "best, stepPlan{demote: demote, add: add}";
-   "best, stepPlan{add: add, remove: remove}"; "best, stepPlan{promote: promote, add: add, remove: remove}";
-   "best, stepPlan{demote: demote, add: add, remove: remove}"].
+  ["local1, stepPlan{(b.toPromote[each#v(b.toPromote.IDs())]): (b.toPromote[each#v(b.toPromote.IDs())]), (b.toDemote[each#v(b.toDemote.IDs())]): (b.toDemote[each#v(b.toDemote.IDs())])}"; "local1, stepPlan{(b.toDemote[each#v(b.toDemote.IDs())]): (b.toDemote[each#v(b.toDemote.IDs())]), (b.toAdd[each#v(b.toAdd.IDs())]): (b.toAdd[each#v(b.toAdd.IDs())])}"; "local1, stepPlan{(b.toAdd[each#v(b.toAdd.IDs())]): (b.toAdd[each#v(b.toAdd.IDs())]), (b.toRemove[each#v(b.toRemove.IDs())]): (b.toRemove[each#v(b.toRemove.IDs())])}"; "local1, stepPlan{(b.toPromote[each#v(b.toPromote.IDs())]): (b.toPromote[each#v(b.toPromote.IDs())]), (b.toAdd[each#v(b.toAdd.IDs())]): (b.toAdd[each#v(b.toAdd.IDs())]), (b.toRemove[each#v(b.toRemove.IDs())]): (b.toRemove[each#v(b.toRemove.IDs())])}"; "local1, stepPlan{(b.toDemote[each#v(b.toDemote.IDs())]): (b.toDemote[each#v(b.toDemote.IDs())]), (b.toAdd[each#v(b.toAdd.IDs())]): (b.toAdd[each#v(b.toAdd.IDs())]), (b.toRemove[each#v(b.toRemove.IDs())]): (b.toRemove[each#v(b.toRemove.IDs())])}"].
 Proof. reflexivity. Qed.
 
 Lemma skel_peerPlan_ok : skel_peerPlan =
-  [Call "planReplace"; Call "IsEmpty"; IfE "!p.IsEmpty()" [Ret] []; Call "planPromotePeer"; Call "IsEmpty"; IfE "!p.IsEmpty()" [Ret] [];
-   Call "planDemotePeer"; Call "IsEmpty"; IfE "!p.IsEmpty()" [Ret] []; Call "planRemovePeer"; Call "IsEmpty"; IfE "!p.IsEmpty()" [Ret] [];
-   Call "planAddPeer"; Call "IsEmpty"; IfE "!p.IsEmpty()" [Ret] []; Ret].
+  [Call "planReplace"; Call "IsEmpty"; IfE "!(b.planReplace()).IsEmpty()" [Ret] []; Call "planPromotePeer"; Call "IsEmpty"; IfE "!(b.planPromotePeer()).IsEmpty()" [Ret] []; Call "planDemotePeer"; Call "IsEmpty"; IfE "!(b.planDemotePeer()).IsEmpty()" [Ret] []; Call "planRemovePeer"; Call "IsEmpty"; IfE "!(b.planRemovePeer()).IsEmpty()" [Ret] []; Call "planAddPeer"; Call "IsEmpty"; IfE "!(b.planAddPeer()).IsEmpty()" [Ret] []; Ret].
 Proof. reflexivity. Qed.
 
 Lemma skel_planReplace_ok : skel_planReplace =
-  [ForE [ForE [Call "planReplaceLeaders"]];
-   ForE [ForE [IfE "!core.IsLearner(add)" [Call "planReplaceLeaders"] []]];
-   ForE [ForE [IfE "core.IsLearner(remove) == core.IsLearner(add) && b.currentPeers[i] == nil" [Call "planReplaceLeaders"] []]];
-   ForE [ForE [IfE "core.IsLearner(add)" [ForE [IfE "!core.IsLearner(remove) && b.currentPeers[j] == nil" [Call "planReplaceLeaders"] []]] []]];
-   ForE [ForE [IfE "core.IsLearner(remove)" [ForE [IfE "!core.IsLearner(add) && j != k" [Call "planReplaceLeaders"] []]] []]];
-   Ret].
+  [ForE [ForE [Call "planReplaceLeaders"]]; ForE [ForE [IfE "!core.IsLearner((b.toAdd[each#v(b.toAdd.IDs())]))" [Call "planReplaceLeaders"] []]]; ForE [ForE [IfE "(core.IsLearner((b.toRemove[each#v(b.toRemove.IDs())])) == core.IsLearner((b.toAdd[each#v(b.toAdd.IDs())])) || (len(b.toAdd) == 1 && len(b.toRemove) == 1 && len(b.toPromote) == 0 && len(b.toDemote) == 0)) && b.currentPeers[each#v(b.toAdd.IDs())] == nil" [Call "planReplaceLeaders"] []]]; ForE [ForE [IfE "core.IsLearner((b.toAdd[each#v(b.toAdd.IDs())]))" [ForE [IfE "!core.IsLearner((b.toRemove[each#v(b.toRemove.IDs())])) && b.currentPeers[each#v(b.toAdd.IDs())] == nil" [Call "planReplaceLeaders"] []]] []]]; ForE [ForE [IfE "core.IsLearner((b.toRemove[each#v(b.toRemove.IDs())]))" [ForE [IfE "!core.IsLearner((b.toAdd[each#v(b.toAdd.IDs())])) && each#v(b.toRemove.IDs()) != each#v(b.toAdd.IDs())" [Call "planReplaceLeaders"] []]] []]]; Ret].
 Proof. reflexivity. Qed.
 
 (* leaderBeforeAdd: an allowed current peer; leaderBeforeRemove: an allowed current peer, the promoted or the added
    peer - never the store that is demoted or removed *)
 Lemma skel_planReplaceLeaders_ok : skel_planReplaceLeaders =
-  [ForE [Call "allowLeader"; IfE "!b.allowLeader(b.currentPeers[leaderBeforeAdd], false)" [Cont] [];
-         ForE [Call "allowLeader";
-               IfE "leaderBeforeRemove != next.demote.GetStoreId() && leaderBeforeRemove != next.remove.GetStoreId() && b.allowLeader(b.currentPeers[leaderBeforeRemove], false)"
-                 [Call "comparePlan"] []];
-         Call "allowLeader";
-         IfE "next.promote != nil && next.promote.GetStoreId() != next.demote.GetStoreId() && next.promote.GetStoreId() != next.remove.GetStoreId() && b.allowLeader(next.promote, false)"
-           [Call "comparePlan"] [];
-         Call "allowLeader";
-         IfE "next.add != nil && next.add.GetStoreId() != next.demote.GetStoreId() && next.add.GetStoreId() != next.remove.GetStoreId() && b.allowLeader(next.add, false)"
-           [Call "comparePlan"] []];
-   Ret].
+  [ForE [Call "allowLeader"; IfE "!b.allowLeader(b.currentPeers[each#v(b.currentPeers.IDs())], false)" [Cont] []; ForE [Call "allowLeader"; IfE "each#v(b.currentPeers.IDs()) != next.demote.GetStoreId() && each#v(b.currentPeers.IDs()) != next.remove.GetStoreId() && b.allowLeader(b.currentPeers[each#v(b.currentPeers.IDs())], false)" [Call "comparePlan"] []]; Call "allowLeader"; IfE "next.promote != nil && next.promote.GetStoreId() != next.demote.GetStoreId() && next.promote.GetStoreId() != next.remove.GetStoreId() && b.allowLeader(next.promote, false)" [Call "comparePlan"] []; Call "allowLeader"; IfE "next.add != nil && next.add.GetStoreId() != next.demote.GetStoreId() && next.add.GetStoreId() != next.remove.GetStoreId() && b.allowLeader(next.add, false)" [Call "comparePlan"] []]; Ret].
 Proof. reflexivity. Qed.
 
 Lemma skel_plan_single_ok :
   skel_planPromotePeer = [ForE [Ret]; Ret]
   /\ skel_planDemotePeer =
-       [ForE [ForE [Call "allowLeader"; IfE "b.allowLeader(b.currentPeers[leader], false) && leader != d.GetStoreId()" [Call "comparePlan"] []]]; Ret]
+       [ForE [ForE [Call "allowLeader"; IfE "b.allowLeader(b.currentPeers[each#v(b.currentPeers.IDs())], false) && each#v(b.currentPeers.IDs()) != (b.toDemote[each#v(b.toDemote.IDs())]).GetStoreId()" [Call "comparePlan"] []]]; Ret]
   /\ skel_planRemovePeer =
-       [ForE [ForE [Call "allowLeader"; IfE "b.allowLeader(b.currentPeers[leader], false) && leader != r.GetStoreId()" [Call "comparePlan"] []]]; Ret]
+       [ForE [ForE [Call "allowLeader"; IfE "b.allowLeader(b.currentPeers[each#v(b.currentPeers.IDs())], false) && each#v(b.currentPeers.IDs()) != (b.toRemove[each#v(b.toRemove.IDs())]).GetStoreId()" [Call "comparePlan"] []]]; Ret]
   /\ skel_planAddPeer =
-       [ForE [IfE "b.currentPeers[i] != nil" [Cont] [];
-              ForE [Call "allowLeader"; IfE "b.allowLeader(b.currentPeers[leader], false)" [Call "comparePlan"] []]]; Ret].
+       [ForE [IfE "b.currentPeers[each#v(b.toAdd.IDs())] != nil" [Cont] []; ForE [Call "allowLeader"; IfE "b.allowLeader(b.currentPeers[each#v(b.currentPeers.IDs())], false)" [Call "comparePlan"] []]]; Ret].
 Proof. repeat split; reflexivity. Qed.
 
 Lemma prepare_guards_ok : prepare_guards =
-  ["!core.IsLearner(peer)"; "voterCount == 0"; "n == nil"; "o.GetId() != n.GetId()"; "core.IsLearner(o)"; "!core.IsLearner(n)";
-   "core.IsLearner(n)"; "b.allowDemote"; "o == nil || (!b.allowDemote && !core.IsLearner(o) && core.IsLearner(n))";
-   "n.GetId() == 0 || o != nil"; "err != nil"; "!ok || core.IsLearner(peer)"; "b.targetLeaderStoreID != 0";
-   "!b.allowLeader(targetLeader, b.forceTargetLeader)";
-   "len(b.toAdd)+len(b.toRemove)+len(b.toPromote)+len(b.toDemote) <= 1"].
+  ["!core.IsLearner(each#v(b.targetPeers))"; "local1 == 0"; "local2 == nil"; "each#v(b.originPeers).GetId() != local2.GetId()"; "core.IsLearner(each#v(b.originPeers))"; "!core.IsLearner(local2)"; "core.IsLearner(local2)"; "b.allowDemote"; "(b.originPeers[local3.GetStoreId()]) == nil || (!b.allowDemote && !core.IsLearner((b.originPeers[local3.GetStoreId()])) && core.IsLearner(local3))"; "local3.GetId() == 0 || (b.originPeers[local3.GetStoreId()]) != nil"; "(b.cluster.AllocID())#1 != nil"; "!(b.targetPeers[b.targetLeaderStoreID])#1 || core.IsLearner((b.targetPeers[b.targetLeaderStoreID])#0)"; "b.targetLeaderStoreID != 0"; "!b.allowLeader((b.targetPeers[b.targetLeaderStoreID]), b.forceTargetLeader)"; "len(b.toAdd)+len(b.toRemove)+len(b.toPromote)+len(b.toDemote) <= 1"].
 Proof. reflexivity. Qed.
 
 (* every step kind of step.go has a constructor in model/C08_Steps.v *)
 Lemma step_kinds_ok : step_kinds =
-  ["TransferLeader"; "AddPeer"; "AddLearner"; "PromoteLearner"; "RemovePeer"; "MergeRegion"; "SplitRegion";
-   "AddLightPeer"; "AddLightLearner"; "DemoteFollower"; "ChangePeerV2Enter"; "ChangePeerV2Leave"].
+  ["TransferLeader"; "AddPeer"; "AddLearner"; "PromoteLearner"; "RemovePeer"; "MergeRegion"; "SplitRegion"; "AddLightPeer"; "AddLightLearner"; "DemoteFollower"; "ChangePeerV2Enter"; "ChangePeerV2Leave"].
 Proof. reflexivity. Qed.
 
 (* the call sequences of the Create*Operator helpers, as the driver's modelOps table assumes them *)
